@@ -13,6 +13,8 @@ mod c14;
 mod astgen;
 mod c15;
 mod c16;
+mod c17;
+mod c18;
 mod c_diff;
 mod comp;
 mod dynp;
@@ -48,6 +50,8 @@ fn main() {
         "c14" => c14::main(&a),
         "c15" => c15::main(&a),
         "c16" => c16::main(&a),
+        "c17" => c17::main(&a),
+        "c18" => c18::main(&a),
         "dump" => dump(&a),
         w => {
             eprintln!("unknown worker {w}");
